@@ -391,6 +391,8 @@ META = (META[0] + " SUB (sub-span pairs stay inside the span); IT1n (counted ran
 META = (META[0] + ' PRECALL (valid calls never violate the precondition of a member they call internally); IDXLOOP.', META[1])
 META = (META[0] + ' RSTEP (downward scans test the lower bound before each step); NEGMIN (no negation of a value that may be numeric_limits::min(); positive and negative controls in fixtures/arith_pos.hpp).', META[1])
 
+META = (META[0] + " DISTGUARD (a search loop guarded by `last - first >= X` that reads a whole second range from its cursor needs X >= that range's length; controls in fixtures/extra8_pos.hpp); PTRCOUNT also rejects a subscript that is the count parameter itself.", META[1])
+
 
 def run(chk, tier):
     db = D.load("plain")
@@ -459,6 +461,9 @@ def run(chk, tier):
     _IT.counted_buffer_area(chk, cdb, ['_string/char_traits', '_cstring/', '_cwchar/', '_strings/cstr', '_algorithm/', '_memory/'])      # PTRCOUNT
     _IT.count_subscript_control(chk, D)
     # ---- RSTEP: downward scans compare the cursor with its lower bound before every step
+    from ..rules import extra8 as _X8
+    _X8.dist_guard_area(chk, cdb, ['_algorithm/', '_numeric/', '_string_view/', '_strings/'])      # DISTGUARD
+    _X8.positive_controls(chk, D, ('DISTGUARD',))
     if _IT.rstep_area(chk, cdb, [""]) < 8:
         chk.analysis_broken("RSTEP: fewer than 8 downward scans found (floor 8)")
     # ---- NEGMIN: no negation of a value the function itself believes may be numeric_limits::min()
